@@ -15,7 +15,7 @@ import marshal
 import types
 from asyncio import locks
 
-SORTED_DICT_ATTRS = ("_tasks_ended", "_tasks_cancelled")
+SORTED_DICT_ATTRS = ()
 PRIMS = (bool, int, float, str, bytes, type(None))
 
 
